@@ -1101,6 +1101,8 @@ class Exec:
 
     def default_value(s, ty):
         t = ty.replace('const ', '').strip()
+        if t.endswith('*'):
+            return None            # uninitialised pointer: any use before assignment fails in the executor
         sh = shape_of({'qualType': t})
         if sh is not None and 'vector<' not in t:
             return Mx(max(sh[0], 0), max(sh[1], 0), arr=sh[2])
@@ -1136,7 +1138,7 @@ class Exec:
                 v = D.lift(rval(v))
             elif ck == 'FloatingToIntegral':
                 v = s.to_int(rval(v))
-            elif ck == 'IntegralToBoolean' or ck == 'FloatingToBoolean':
+            elif ck in ('IntegralToBoolean', 'FloatingToBoolean', 'PointerToBoolean'):
                 v = s.truth(v)
             elif ck == 'ToVoid':
                 v = None
